@@ -94,8 +94,10 @@ func init() {
 			"decodes exactly the operand widths that Make encodes, every emit site passes the defined number of operands (R-OPTABLE); operands are " +
 			"range-checked before they are narrowed to 16 bits (R-NARROW); every placeholder jump is patched on every success path (R-JUMPPATCH); " +
 			"the compiler rejects node kinds it cannot translate instead of leaving the operand stack inconsistent (R-EXHAUST/Compile); every computed index into " +
-			"the storage of a VM value is bounded by the length of that same storage (R-CONTAINERIDX), and the VM's index normalisers are proved to return positions within bounds (R-IDXPOST); the slot discipline of the symbol table (R-SLOTMAX).",
-		NotDecided:  "Stack balance in general, symbol-table histories (slot arithmetic), host crashes from value-level arithmetic.",
+			"the storage of a VM value is bounded by the length of that same storage (R-CONTAINERIDX), and the VM's index normalisers are proved to return positions within bounds (R-IDXPOST); the slot discipline of the symbol table, whose name→slot map only Define writes (R-SLOTMAX); " +
+			"stack balance: the net effect of every opcode is derived from (*VM).Run and every compiler function is interpreted over symbolic stack heights with it — each case of Compile leaves +1 for an expression and 0 for a statement on every accepting path, " +
+			"a jump and its target agree on the height, breaks leave a loop at the height its body was entered with, nothing pops below the height a node's translation started at (R-STACKEFFECT); push tests its position against the size the stack is allocated with (R-VMSTACK).",
+		NotDecided:  "Symbol-table histories beyond the clauses above (slot arithmetic under arbitrary push/pop/define sequences), the absolute stack depth a program needs (overflow is a run-time error, not a crash), host crashes from value-level arithmetic.",
 		Assumptions: []string{"the VM dispatch is the switch over Opcode with the most cases in (*VM).Run", "ip is the instruction pointer variable of Run"},
 		Rules:       []*Rule{ruleOpTable, ruleNarrow, ruleJumpPatch, exhaustRule("Compile", 20), ruleLoopVarScope, ruleVMValues, f2iRule("pkg/bytecode", 2), ruleSlotMax, containerIdxRule("pkg/bytecode", 3), idxPostRule("pkg/bytecode"), ruleVMStack, ruleStackEffect},
 	})
@@ -297,7 +299,8 @@ func init() {
 			"discipline: fresh containers, no lost updates on by-value copies (R-VMVALUES); strings handled by code point (R-RUNES/pkg/bytecode); " +
 			"user numbers become indexes only through NaN/fraction-safe guards, loop counts taken from user numbers are bounded (R-F2I/pkg/bytecode); repetition " +
 			"deep-copies per repetition and a zero step is rejected, as in the evaluator (R-VMVALUES); slot requirements are propagated on every path as a maximum " +
-			"of absolute indexes and nested tables continue the outer numbering (R-SLOTMAX).",
+			"of absolute indexes and nested tables continue the outer numbering (R-SLOTMAX); every operator reaches, through the compiler's table, an opcode that computes what the operator stands for (R-OPSEM); " +
+			"every placeholder jump is patched (R-JUMPPATCH) and the translation of every node kind is stack-neutral or leaves exactly its value, so no statement runs on another statement's operands (R-STACKEFFECT).",
 		NotDecided:  "Equality of final globals in general; slot arithmetic of the symbol table; constant pooling.",
 		Assumptions: []string{},
 		Rules:       []*Rule{exhaustRule("Compile", 20), fieldCovRule("Compile"), ruleDispatch, ruleOpSem, ruleLoopVarScope, ruleVMValues, runesRule("pkg/bytecode", "stringVal", 4), f2iRule("pkg/bytecode", 2), ruleSlotMax, ruleJumpPatch, ruleStackEffect},
